@@ -440,6 +440,19 @@ func runUFCase(raw json.RawMessage, w *TraceWriter) {
 				write(fs)
 			}
 		}
+	case "deep":
+		// nesting far beyond the skippers' recursion limit of 64: the converter has no such limit, a deep tree is a tree
+		pats := []string{"l", "t", "s", "v", "k", "sl", "lv", "slvkt"}
+		pat := ""
+		for len(pat) < c.N {
+			pat += pats[c.Depth%len(pats)]
+		}
+		body, top := nestMixed(pat[:c.N])
+		in := append([]byte{byte(top), 0, 9}, body.b...)
+		in = append(in, 8, 0, 10, 0, 0, 0, 1)
+		if fs, ok := conv(in, api); ok {
+			write(fs)
+		}
 	case "badtree":
 		// a well-typed tree with ONE node whose type tag is not a Thrift type, at a random position (top level, list /
 		// set element, map key or value, struct field, any depth): both the length function and the writer refuse it
@@ -535,6 +548,11 @@ func ufCases(c *Ctx, n int, hostile bool) []json.RawMessage {
 			out = append(out, mustJSON(UFCase{Mode: "badtree", Seed: rng.Int63(), N: 1 + rng.Intn(3), Depth: 1 + rng.Intn(4)}))
 		}
 		out = append(out, mustJSON(UFCase{Mode: "badget"}))
+		for _, n := range []int{1, 8, 32, 62, 63, 64, 65, 66, 70, 78} { // (the JSON reader of the trace allows 255 nested brackets: 3 per tree level)
+			for d := 0; d < 8; d++ {
+				out = append(out, mustJSON(UFCase{Mode: "deep", N: n, Depth: d, Refl: (n+d)%5 == 0}))
+			}
+		}
 		// (sizes kept where TLC's recursive reference stays fast: about 400 fields in total)
 		for _, n := range []int{0, 1, 31, 32, 33, 62, 63, 64, 65, 100, 126, 127, 128, 129, 200, 255, 256, 257} {
 			for _, d := range []int{1, 2, 3} {
@@ -546,7 +564,7 @@ func ufCases(c *Ctx, n int, hostile bool) []json.RawMessage {
 }
 
 func checkC13(c *Ctx) {
-	c.rule = "MC: over all well-typed trees within bounds (every type at the top level and as element/key/value type of the first container level, reduced alphabet below, 0..2 elements, two fields after one another inside a struct) ToTree(ToBytes(t)) = t, ToBytes(ToTree(b)) = b, TreeLen = length, tags only where meaningful. TRACE: random field sequences from the typed value generator -> ConvertUnknownFields / GetUnknownFields -> WriteUnknownFields / UnknownFieldsLength, random Go trees -> write -> convert, and wide structs (0..257 fields in flight around every power of two, a nested struct of 50..150 fields behind them, converted twice in a row); TLC compares every tree field by field (ID, Type, KeyType, ValType, Value) with ToTree and every output with ToBytes; truncated and perturbed inputs are accepted exactly when the reference accepts them; trees with one node of a non-Thrift type at any position are refused by the length function and the writer, values without unknown fields by GetUnknownFields (an error, never a panic)."
+	c.rule = "MC: over all well-typed trees within bounds (every type at the top level and as element/key/value type of the first container level, reduced alphabet below, 0..2 elements, two fields after one another inside a struct) ToTree(ToBytes(t)) = t, ToBytes(ToTree(b)) = b, TreeLen = length, tags only where meaningful. TRACE: random field sequences from the typed value generator -> ConvertUnknownFields / GetUnknownFields -> WriteUnknownFields / UnknownFieldsLength, random Go trees -> write -> convert, and trees nested 1..78 levels deep in pure and mixed chains, wide structs (0..257 fields in flight around every power of two, a nested struct of 50..150 fields behind them, converted twice in a row); TLC compares every tree field by field (ID, Type, KeyType, ValType, Value) with ToTree and every output with ToBytes; truncated and perturbed inputs are accepted exactly when the reference accepts them; trees with one node of a non-Thrift type at any position are refused by the length function and the writer, values without unknown fields by GetUnknownFields (an error, never a panic)."
 	c.MC("MC_UnknownFields.tla", "MC_UnknownFields.cfg", 4)
 	cases := ufCases(c, c.Pick(1500, 30000), false)
 	// truncated / perturbed inputs: accepted exactly when the reference accepts them (a converter that swallows a
